@@ -35,6 +35,11 @@ FLAVOUR = {
    B. a classic PYTHON-SEMANTICS slip inside the directly involved code: mutable default argument or class attribute, late-binding closure, `is` vs `==`, `or` used for a default where 0 / '' / empty is legal, bytes vs str mix-up, shallow copy where a deep one is needed (or aliasing a caller's object), exhausted iterator reused, dict/set ordering assumption, exception swallowed by a broad except or by `return` in `finally`, wrong operator precedence, off-by-one in a slice or range, `lower()` vs `casefold()`, regex anchoring / flags / greedy vs lazy, integer division or rounding, `str.strip(chars)` misuse, `sorted` stability or key mistakes.
    C. a change whose wrong behaviour appears only for inputs of a particular SIZE or COUNT class: exactly at a buffer / chunk / limit boundary, only for more than N items, only for values longer than some threshold, only for the empty case of something that is usually non-empty.
  Ordinary everyday use must keep working - do NOT make a change that the first simple request would expose.""",
+ 11: """This round: make one change of each of these three kinds, each the sort of commit a maintainer really makes:
+   A. FEATURE ADDITION: add a small, plausible new capability - a new keyword argument with a default, a new method or property, support for one more header or option (If-Match / If-Unmodified-Since, Accept-Ranges, Content-Encoding / precompressed files, X-Forwarded-*, automatic HEAD or OPTIONS handling, trailing-slash handling, a 'strict' flag, a size limit, a default charset, a default header) - whose code path ALSO runs for callers that never asked for the feature and breaks the property for some specific legal input. The feature itself must work.
+   B. MAINTENANCE REFACTOR: de-duplicate or modernise without intending any behaviour change - merge the WSGI and ASGI copies of something into a shared helper, extract a method, turn a loop into a comprehension / generator / itertools call, replace manual parsing by a library call (or the reverse), introduce a dataclass / NamedTuple / __slots__, switch os.path to pathlib, flatten nested ifs, reorder branches, rename and re-route arguments - and lose a subtle detail on the way (an edge value, an evaluation order, laziness, an identity, a default, an exception type).
+   C. CONCURRENCY / RE-ENTRANCY: per-request data is kept somewhere that is shared - on the application, router, response or middleware OBJECT, in a module global, a class attribute, a default argument, a cache keyed too coarsely, a reused buffer - or a critical section is widened / narrowed, so that two requests in flight at once (threads under WSGI, tasks under ASGI), or a second use that starts before the first one has finished, disturb each other. A single request at a time must keep working.
+ Ordinary everyday use must keep working - do NOT make a change that the first simple request would expose.""",
  5: """This round is about interactions; make three changes, each of which needs TWO things at once to show (neither alone exposes it): e.g. a feature used through a second public entry point, inside a mount or middleware, on the second use of an object, with a particular header present, with a particular chunking AND a particular content, on one interface only AND only for one method. Ordinary everyday use must keep working - do NOT make a change that the first simple request would expose.""",
 }
 
